@@ -224,6 +224,14 @@ def r4_profile(ctx):
                   bad="profile_coordinates receives point1=%s" % show(a1)[:80], fn=qn)
         ctx.check("R4", "%s|profile_coordinates-point2|%s" % (qn, tag), tri(a2, w2, w1), "point2 reaches profile_coordinates %s" % ("projected" if tag == "proj" else "as given"),
                   bad="profile_coordinates receives point2=%s" % show(a2)[:80], fn=qn)
+        for nm, a in (("point1", a1), ("point2", a2)):
+            if isinstance(a, tuple) and a[0] == "tuple" and len(a[1]) == 2 and all(x[0] == "sub" and x[1][0] == "sub" and x[1][1][0] == "call" for x in a[1]):
+                (e_, n_) = a[1]
+                same_call = e_[1][1] == n_[1][1]
+                if same_call and e_[1][2] != n_[1][2] and is_const(e_[2]) and is_const(n_[2]):
+                    ctx.check("R4", "%s|end-point-index-alignment|%s|%s" % (qn, nm, tag), True if e_[2] == n_[2] else False,
+                              "%s takes its easting and northing from the same position of the projected arrays" % nm,
+                              bad="%s = (projected easting[%s], projected northing[%s]): easting and northing of different points are combined" % (nm, e_[2][1], n_[2][1]), fn=qn)
         ctx.check("R4", "%s|profile_coordinates-size|%s" % (qn, tag), True if sz == ("param", "size") else None, "size is forwarded", fn=qn)
         cart = Q.sub(pc, 0)
         parg = pr[0][2][0] if pr[0][2] else None
@@ -354,6 +362,41 @@ def r8_defaults(ctx):
     ctx.check("R8", qn + "|returns-argument", ret_arg, "a given region is returned as is", bad="a given region is not returned unchanged", fn=qn)
     ctx.check("R8", qn + "|falls-back-to-region_", ret_def, "region=None falls back to instance.region_", bad="region=None does not return instance.region_", fn=qn)
     ctx.check("R8", qn + "|raises-without-region_", rs, "no region and no region_ raises", bad="missing default region no longer raises", fn=qn)
+    # region_ (the default gridding region) is the bounding box of the coordinates given to fit, for every gridder
+    nfit = 0
+    for cq, c in sorted(ctx.pkg.classes.items()):
+        if "fit" not in c.methods or "verde.base.base_classes.BaseGridder" not in ctx.pkg.mro(cq):
+            continue
+        fq = c.methods["fit"].qual
+        fa = ctx.an.fa(fq)
+        if not fa.ok:
+            ctx.add("R8", fq + "|region_-is-bounding-box-of-fit-coordinates", "UNDECIDED", fa.unsupported, fn=fq)
+            continue
+        verdict, why = None, ""
+        seen = False
+        for p in fa.paths:
+            if not p.normal:
+                continue
+            regs = [e.data[2] for e in p.events if e.kind == "setattr" and e.data[1] == "region_" and e.data[0] == Q.SELF]
+            if not regs:
+                continue
+            seen = True
+            r = regs[-1]
+            if r[0] == "call" and callee(r) == "verde.coordinates.get_region" and r[2]:
+                a = r[2][0]
+                if any(x[0] in ("mu", "prev") or (x[0] == "call" and callee(x) in (".filter", ".predict")) for x in walk(a)):
+                    verdict, why = False, "region_ is computed from a filter/predict result, not from the coordinates given to fit"
+                elif Q.leaves(a) - {("param", "coordinates"), ("param", "data"), ("param", "weights")}:
+                    verdict, why = (verdict if verdict is False else None), "region_ depends on %s" % sorted(show(x) for x in Q.leaves(a))
+                elif ("param", "coordinates") in Q.leaves(a) and verdict is not False:
+                    verdict = True if verdict in (None, True) and not why else verdict
+            elif verdict is not False:
+                verdict, why = None, "region_ is %s" % show(r)[:60]
+        if seen:
+            nfit += 1
+            ctx.check("R8", fq + "|region_-is-bounding-box-of-fit-coordinates", verdict, "region_ = get_region(<coordinates given to fit>)", bad=why, fn=fq, undecided=why)
+    if nfit < 6:
+        ctx.add("R8", "fit-methods|region_-count", "UNDECIDED", "only %d fit methods setting region_ found" % nfit)
     qn = "verde.base.base_classes.BaseGridder._get_dims"
     ps = ctx.paths(qn)
     a = any(p.exit == "return" and p.value == ("param", "dims") and lookup(p.decided, ("cmp", "is", ("param", "dims"), NONE)) is False for p in ps)
